@@ -18,6 +18,7 @@ import Vicut.Model.Pos
 import Vicut.Model.Repeat
 import Vicut.Model.Vic
 import Vicut.Model.VimSpec
+import Vicut.Model.Motions
 
 open Lean Vicut
 
@@ -512,6 +513,34 @@ def opVimSpec (req : Json) : Json :=
   let s := Vicut.VimSpec.run ⟨(jstr req "line").toList, jnat req "cur"⟩ cmds
   Json.mkObj [("line", Json.str (String.ofList s.line)), ("cur", s.cur)]
 
+def mkJson : MK → Json
+  | .to p => Json.arr #["To", p]
+  | .on p => Json.arr #["On", p]
+  | .onto p => Json.arr #["Onto", p]
+  | .inclusive s e => Json.arr #["Inclusive", s, e]
+  | .exclusive s e => Json.arr #["Exclusive", s, e]
+  | .line n => Json.arr #["Line", n]
+  | .lineRange a b => Json.arr #["LineRange", a, b]
+  | .lineOffset k => Json.arr #["LineOffset", Json.num (JsonNumber.fromInt k)]
+  | .blockRange ws => Json.arr #["BlockRange", Json.arr (ws.map (fun w => Json.arr #[w.1, w.2])).toArray]
+  | .inclTarget s e c => Json.arr #["InclusiveWithTargetCol", s, e, c]
+  | .exclTarget s e c => Json.arr #["ExclusiveWithTargetCol", s, e, c]
+  | .lines l => Json.arr #["Lines", Json.arr (l.map (fun (n : Nat) => (n : Json))).toArray]
+  | .null => Json.arr #["Null"]
+
+/-- `{"op":"motion","gs":[..],"cur":n,"excl":b,"selecting":b,"ws":[b..],"motion":name,"count":n,"appending":b}` -/
+def opMotion (req : Json) : Json :=
+  let ws : List Bool := (jarr req "ws").toList.map (fun x => x.getBool?.toOption.getD false)
+  let s : MS := ⟨gsOf req, jnat req "cur", jbool req "excl", jbool req "selecting", ws⟩
+  let m? : Option SMotion := match jstr req "motion" with
+    | "ForwardChar" => some .forwardChar | "BackwardChar" => some .backwardChar
+    | "BeginningOfLine" => some .bol | "EndOfLine" => some .eol | "BeginningOfFirstWord" => some .firstWord
+    | "BeginningOfBuffer" => some .bob | "EndOfBuffer" => some .eob | "ToColumn" => some .toColumn
+    | "WholeBuffer" => some .wholeBuffer | _ => none
+  match m? with
+  | none => Json.mkObj [("err", "motion not modelled")]
+  | some m => Json.mkObj [("mk", mkJson (evalSimple s m (jnat req "count") (jbool req "appending")))]
+
 def dispatch (req : Json) : Json :=
   match jstr req "op" with
   | "ping" => Json.mkObj [("pong", true)]
@@ -531,6 +560,7 @@ def dispatch (req : Json) : Json :=
   | "dot" => opDot req
   | "vic" => opVic req
   | "vimspec" => opVimSpec req
+  | "motion" => opMotion req
   | op => Json.mkObj [("err", Json.str s!"unknown op {op}")]
 
 partial def loop (h : IO.FS.Stream) (out : IO.FS.Stream) : IO Unit := do
